@@ -16,6 +16,7 @@
 extern "C" {
 // sanitizer interface (weak: absent in plain / tsan builds)
 void __asan_set_error_report_callback(void (*)(const char *)) __attribute__((weak));
+void __sanitizer_set_death_callback(void (*)(void)) __attribute__((weak));
 void __sanitizer_symbolize_pc(void *pc, const char *fmt, char *out, size_t out_size) __attribute__((weak));
 void __sanitizer_print_stack_trace(void) __attribute__((weak));
 }
@@ -353,6 +354,29 @@ bool guarded(const std::function<void()> &f) {
 }
 
 // ------------------------------------------------------------ capture of stdout/stderr
+// a fatal sanitizer error (out of memory, ...) ends the process with the report sitting in the capture file:
+// copy its tail to the real stderr so that the driver can tell a resource limit from a defect
+static void on_sanitizer_death() {
+  if (cap_fd < 0 || real_err_fd < 0) return;
+  off_t end = lseek(cap_fd, 0, SEEK_END);
+  static char buf[262144];
+  off_t from = end > (off_t)sizeof buf ? end - (off_t)sizeof buf : 0;
+  ssize_t n = pread(cap_fd, buf, sizeof buf, from);
+  if (n <= 0) return;
+  // the lines that name the cause (a memory map of many KB may follow them)
+  size_t out = 0;
+  for (ssize_t a = 0; a < n && out < 4000;) {
+    ssize_t b = a;
+    while (b < n && buf[b] != '\n') b++;
+    if (memmem(buf + a, (size_t)(b - a), "Sanitizer", 9) || memmem(buf + a, (size_t)(b - a), "allocate", 8) || memmem(buf + a, (size_t)(b - a), "memory", 6)) {
+      (void)!write(real_err_fd, buf + a, (size_t)(b - a));
+      (void)!write(real_err_fd, "\n", 1);
+      out += (size_t)(b - a) + 1;
+    }
+    a = b + 1;
+  }
+}
+
 void init_runtime() {
   real_out_fd = dup(1);
   real_err_fd = dup(2);
@@ -364,6 +388,7 @@ void init_runtime() {
     dup2(cap_fd, 2);
   }
   if (__asan_set_error_report_callback) __asan_set_error_report_callback(asan_cb);
+  if (__sanitizer_set_death_callback) __sanitizer_set_death_callback(on_sanitizer_death);
   install_handlers();
   if (!cfg.logdir.empty()) {
     char path[4096];
